@@ -1065,3 +1065,7 @@ T('c15-twin-dump-name-from-path', 'C15', "        sqlite_temp_loc = Path(temp_di
 M('c13-cache-beyond-returned', 'C13', "        self._current_pack_id = pack_id\n        return pack_id", "        self._current_pack_id = pack_id + 1\n        return pack_id", 'C13.R2s')
 M('c13-ignore-known-size', 'C13', "            if known_sizes and pack_id in known_sizes:\n                size = known_sizes[pack_id]\n            else:\n                size = pack_path.stat().st_size", "            size = pack_path.stat().st_size", 'C13.R2s')
 M('c13-lock-not-exclusive', 'C13', "            with open(lock_file, 'x'):\n                with open(pack_file, 'ab') as pack_handle:", "            with open(lock_file, 'w'):\n                with open(pack_file, 'ab') as pack_handle:", 'C13.R1')
+
+# ------------------------------------------------------------------------------------------------ C14 (round 2)
+M('c14-existing-from-source', 'C14', "            sorted_loose = sorted(self._list_loose())", "            sorted_loose = sorted(source_container._list_loose())", 'C14.R5')
+M('c14-read-from-self', 'C14', "        with source_container.get_objects_stream_and_meta(hashkeys) as triplets:", "        with self.get_objects_stream_and_meta(hashkeys) as triplets:", 'C14.R5')
